@@ -18,7 +18,7 @@ class UnitSpec:
         self.timeout_s = timeout_s
 
 
-def unit(prop, name, mode, targets=(), tiers=("quick", "thorough"), bounded=False, note="", timeout_s=900):
+def unit(prop, name, mode, targets=(), tiers=("quick", "thorough"), bounded=False, note="", timeout_s=300):
     """decorator registering a unit.  mode: A1|A2|B|F|L|R (DESIGN §3.4);
     bounded=True means the unit is a bounded stand-in and is never counted as proved."""
     def deco(fn):
@@ -207,6 +207,40 @@ def load_property(prop):
     return UNITS.get(prop, [])
 
 
+def _child(conn, args):
+    """one unit in its own process: address-space limit (a runaway symbolic execution must not take the machine down)"""
+    try:
+        import resource
+        gb = float(os.environ.get("PYVC_UNIT_MEM_GB", "14"))
+        resource.setrlimit(resource.RLIMIT_AS, (int(gb * 2 ** 30), int(gb * 2 ** 30)))
+    except Exception:
+        pass
+    try:
+        res = _run_unit(args)
+    except BaseException:
+        prop, idx, tier, seed = args
+        spec = UNITS[prop][idx]
+        res = dict(unit=spec.name, mode=spec.mode, bounded=spec.bounded, note=spec.note, crashed=traceback.format_exc(),
+                   obligations=[], trusted=[], assumptions=[], failures=[], evaluations=0, distinct=0, samples=[], rule="", paths=0,
+                   solver_s=0.0, functions=[], files={}, wall_s=0.0, notes=[], exhaustive=False)
+    try:
+        conn.send(res)
+    except Exception:
+        pass
+    conn.close()
+
+
+def _killed_result(prop, idx, why):
+    spec = UNITS[prop][idx]
+    files = {}
+    for t in spec.targets:
+        rel = t.split(":")[0]
+        files.setdefault(rel, file_digest(os.path.join(REPO, rel)))
+    return dict(unit=spec.name, mode=spec.mode, bounded=spec.bounded, note=spec.note, crashed=why, obligations=[], trusted=[],
+                assumptions=[], failures=[], evaluations=0, distinct=0, samples=[], rule="", paths=0, solver_s=0.0, functions=[],
+                files=files, wall_s=0.0, notes=[], exhaustive=False, killed=True)
+
+
 def run_units(prop, tier, seed, only=None, jobs=None):
     specs = load_property(prop)
     todo = [(prop, i, tier, seed) for i, s in enumerate(specs)
@@ -214,8 +248,39 @@ def run_units(prop, tier, seed, only=None, jobs=None):
     if not todo:
         return []
     jobs = jobs or min(len(todo), int(os.environ.get("PYVC_JOBS", "16")))
-    if jobs <= 1 or len(todo) == 1:
+    if os.environ.get("PYVC_INPROCESS") == "1":
         return [_run_unit(a) for a in todo]
     ctxm = multiprocessing.get_context("fork")
-    with ctxm.Pool(jobs, maxtasksperchild=1) as pool:
-        return pool.map(_run_unit, todo, chunksize=1)
+    results = {}
+    pending = list(todo)
+    running = []          # (args, process, conn, t0, limit)
+    scale = 1.0 if tier == "quick" else 10.0
+    while pending or running:
+        while pending and len(running) < jobs:
+            a = pending.pop(0)
+            pc, cc = ctxm.Pipe(duplex=False)
+            pr = ctxm.Process(target=_child, args=(cc, a), daemon=True)
+            pr.start()
+            cc.close()
+            running.append((a, pr, pc, time.time(), specs[a[1]].timeout_s * scale))
+        time.sleep(0.05)
+        still = []
+        for a, pr, pc, t0, lim in running:
+            if pc.poll():
+                try:
+                    results[a[1]] = pc.recv()
+                except EOFError:
+                    results[a[1]] = _killed_result(a[0], a[1], "unit process died without a result (killed by the memory limit?)")
+                pr.join(5)
+                continue
+            if not pr.is_alive():
+                results[a[1]] = _killed_result(a[0], a[1], "unit process exited with code %s without a result (memory limit?)" % pr.exitcode)
+                continue
+            if time.time() - t0 > lim:
+                pr.kill()
+                pr.join(5)
+                results[a[1]] = _killed_result(a[0], a[1], "unit exceeded its time limit of %d s and was stopped" % lim)
+                continue
+            still.append((a, pr, pc, t0, lim))
+        running = still
+    return [results[a[1]] for a in todo]
